@@ -67,7 +67,8 @@ def gen(rng, tier):
             for f in FORMATS:
                 for m in MODES:
                     chosen.append({"input": i, "format": f, "mode": m, "color": rng.choice(COLORS), "cond": rng.choice(COND), "opts": [], "same": rng.random() < 0.25})
-                    chosen.append({"input": i, "format": f, "mode": m, "color": rng.choice(COLORS), "cond": rng.choice(COND), "opts": rng.choice(OPTS[1:]), "same": rng.random() < 0.25})
+                    for o in OPTS[1:]:
+                        chosen.append({"input": i, "format": f, "mode": m, "color": rng.choice(COLORS), "cond": rng.choice(COND), "opts": o, "same": rng.random() < 0.25})
         cfgs = chosen
     return cfgs
 
